@@ -39,7 +39,7 @@ Definition arm_stop0 (now n : N) : tslot := if n =? 0 then TNever else TAt (now 
 Record cfg := { c_arm : N -> N -> tslot; c_loop_to_fsm : bool }.
 
 (* what the tree under verification does *)
-Definition cur : cfg := {| c_arm := arm_sleep; c_loop_to_fsm := false |}.
+Definition cur : cfg := {| c_arm := arm_stop0; c_loop_to_fsm := true |}.
 
 Definition enabled (now : N) (s : tslot) : bool :=
   match s with
